@@ -33,7 +33,8 @@ def spec_copy_half_stream(ck, max_turns=2, io_errors=False):
     ex.read_budget = max_turns
     ex.io_errors = io_errors
     src_cell = st.alloc(Stream('source', inp))
-    dst_cell = st.alloc(Stream('destination', Bytes.from_terms([], 'in')))
+    # the destination is a raw stream under back-pressure: AsyncWrite::write may take only part of what it is given
+    dst_cell = st.alloc(Stream('destination', Bytes.from_terms([], 'in'), buffered=False))
     count0 = z3.BitVec('bytes_counted_before', 64)
     ex.assume(st, z3.ULT(count0, BV(1 << 62, 64)))
     stat = Agg('ContextStatistics', {stf.index('read_bytes'): Agg('Atomic', {0: Int(count0, 64)}),
@@ -105,6 +106,8 @@ def relay_replay_plan(ob):
     n = len(src) // 2
     base = {'source': src, 'buffer_size': int(i.get('buffer_size', 8)) or 1, 'counted_before': int(i.get('bytes_counted_before', 0)) % (1 << 40)}
     cases = [{'driver': 'copy_half', 'args': dict(base, pieces=p)} for p in ([n], [1, max(n - 1, 0)], [1] * n, [max(n - 1, 0), 1])]
+    # a destination under back-pressure takes the data in small writes (window of 1 / 2 / 3 bytes)
+    cases += [{'driver': 'copy_half', 'args': dict(base, pieces=[n], dst_window=w)} for w in (1, 2, 3)]
     lab = ob.label
     if 'destination-receives-exactly' in lab or 'finishes-only-at-end-of-stream' in lab:
         return 'relay', cases, lambda o: o.get('delivered_equals_source') is False
